@@ -8,7 +8,7 @@ HERE = os.path.dirname(os.path.dirname(os.path.abspath(__file__)))
 # id -> (technique, level text, level note, design section)
 TABLE = {
     "C01": (
-        "Hypothesis grammar/token-soup generation + directed cut-point families + atheris coverage-guided fuzzing of the PE parser; oracle = no exception / event-budgeted hang verdict, exceptions bucketed by root cause",
+        "Hypothesis grammar/token-soup generation + structured URL mutation + directed cut-point families + enumerated parameter edges + (thorough) atheris coverage-guided fuzzing of the PE parser and of the analyzer-only scan; oracle = no exception / event-budgeted hang verdict / memory verdict, failures bucketed by root cause",
         "Generated-input search for crashes and non-termination of scan() and of every read-only view, over token soups, per-parser adversarial grammars with every cut point, truncated/corrupted PE headers and all integer depth limits; failures are bucketed by (exception type, innermost multidecoder frame) and shrunk.",
         "Absence of crashes is not established; inputs are <= 8 KB; hang verdicts come from a deterministic line-event budget (sys.monitoring), not wall-clock; pefile is exercised as shipped in /venv.",
         "5/C01",
@@ -56,9 +56,9 @@ TABLE = {
         "5/C08",
     ),
     "C09": (
-        "Hypothesis stateful machine over scan histories + subprocess sweeps over PYTHONHASHSEED + generated os.walk permutations + threaded smoke run; oracle = equality of tree JSON / CLI stdout",
-        "Histories (rule-based state machine on shared and fresh scanners), hash seeds (fresh interpreters), generated directory enumeration orders and threads are all compared for byte-equal JSON trees on tie-rich generated documents.",
-        "Thread schedules are sampled by the OS, not enumerated (smoke test only); hash seeds are sampled.",
+        "Hypothesis rule-based state machine over scan histories (model = result of a fresh interpreter per document) + subprocess sweeps over PYTHONHASHSEED (default and include-list registries, library and CLI) + generated directory-enumeration permutations + 8-thread runs on long pure-Python decoder inputs; oracle = equality of tree JSON / CLI stdout",
+        "Histories (rule-based state machine on shared and fresh scanners, registry rebuilds and CLI calls, documents with letter-case variants; every result must equal the result of a pristine interpreter), hash seeds (fresh interpreters, default and include-list registries), generated directory enumeration orders (shipped and generated keyword directories) and threads (sampled schedules) are compared for byte-equal JSON trees / CLI output on tie-rich generated documents.",
+        "Thread schedules are sampled by the OS with a 1 microsecond switch interval, not enumerated (detection of a thread-unsafe change is probabilistic); hash seeds are sampled (6 per corpus).",
         "5/C09",
     ),
     "C10": (
